@@ -28,7 +28,7 @@ MUST = ["reassembled_while_another_caller_queued", "reassembled_after_corrupt_an
         "wrong_second_piece_refused", "foreign_datagram_between_fragments", "both_pieces_delayed", "two_objects_fragmented", "other_timeouts"]
 EXHAUSTIVE = {"quick": False, "thorough": True}
 EPS = 1e-6
-KINDS = ["exact", "plus1", "minus1", "corrupt", "other_answer", "other_remainder", "none", "plus1_then_exact", "junk_then_exact"]
+KINDS = ["exact", "plus1", "minus1", "corrupt", "crcswap", "other_answer", "other_remainder", "none", "plus1_then_exact", "junk_then_exact"]
 HEADER = {"rtu": 5, "tcp": 9, "aa55": 9}
 
 
@@ -66,6 +66,8 @@ class FragPeer(ScriptedPeer):
             kind = sc["kind"]
             second = {"exact": rest, "plus1": rest + b"\x00", "minus1": rest[:-1],
                       "corrupt": bytes([rest[0] ^ 0x01]) + rest[1:] if rest else b"",
+                      # (the remainder with its last two bytes exchanged; when the checksum bytes are equal: last byte altered)
+                      "crcswap": (rest[:-2] + rest[-1:] + rest[-2:-1] if len(rest) >= 2 and rest[-1] != rest[-2] else rest[:-1] + bytes([rest[-1] ^ 0x10])) if rest else b"",
                       "other_answer": other, "other_remainder": other[k:], "none": None,
                       "plus1_then_exact": rest + b"\x00",
                       "junk_then_exact": b"\xde\xad\xbe\xef" if len(rest) != 4 else b"\xde\xad\xbe"}[kind]
@@ -145,7 +147,7 @@ def check_run(sc, run, part: Part):
                             f"the frame glued from the first and the third datagram ({len(txs)} transmissions)"))
             elif header_ok and sc["kind"].endswith("_then_exact"):
                 part.count("foreign_datagram_between_fragments")
-            elif header_ok and sc["kind"] in ("plus1", "minus1", "corrupt", "other_remainder"):
+            elif header_ok and sc["kind"] in ("plus1", "minus1", "corrupt", "crcswap", "other_remainder"):
                 part.count("wrong_second_piece_refused")
     # (a) exact remainder in time => success, one transmission, exactly the unsplit bytes
     want_tx = 2 if sc.get("pre") else 1
